@@ -65,3 +65,16 @@ package contract
 //@ ensures[merge] wrapped && commit && result == nil ==> ic.DAO == baseDAO
 //@ ensures[untouched] !wrapped ==> ic.DAO == old(ic.DAO) && same(ic.Notifications, old(ic.Notifications))
 //@ ensures[native] callFromNative && !commit ==> result != nil
+
+// (C16) System.Contract.Call's own argument handling: the requested flags are within the defined flag
+// bits, a method whose name starts with an underscore (_deploy, _initialize) cannot be called, the
+// method entered is the one the callee's manifest has for that name and argument count, and the call
+// is marked dynamic.
+//@ prop C16
+//@ func Call
+//@ may-panic
+//@ opt frame off
+//@ opt callbacks pure
+//@ call callInternal requires[flags] arg3 & (255 - callflag.All) == 0 && arg3 == fs
+//@ call callInternal requires[public] len(method) == 0 || method[0] != 95
+//@ call callInternal requires[target] arg1 == cs && arg2 == md && md != nil && arg6 && same(arg5, args)
